@@ -63,6 +63,8 @@ struct ElemIO {
   template <class V, class It> static typename V::iterator emplace(V &v, It pos, const Val &x) { return v.emplace(pos, x.key, x.pay); }
   template <class V, class It> static typename V::iterator emplace_member(V &v, It pos, const T &src, int pay) { return v.emplace(pos, src.key_, pay); }
   template <class V> static T &emplace_back_member(V &v, const T &src, int pay) { return v.emplace_back(src.key_, pay); }
+  template <class S> static auto set_emplace(S &s, const Val &x) -> decltype(s.emplace(x.key, x.pay)) { return s.emplace(x.key, x.pay); }
+  template <class S, class It> static auto set_emplace_hint(S &s, It h, const Val &x) -> decltype(s.emplace_hint(h, x.key, x.pay)) { return s.emplace_hint(h, x.key, x.pay); }
 };
 extern unsigned g_zeroSign;
 template <class T>
@@ -87,7 +89,7 @@ struct ElemIO<T, true> {
 };
 
 /// std::string elements (what users actually store): short strings live inside the string object (SSO), so a string moved by
-/// raw byte copy keeps pointing into its old place.  (key, pay) is encoded zero-padded so that the lexicographic order of the
+/// raw byte copy keeps pointing into its old place.  (key, pay) is encoded zero-padded ("kkkkk:ppppppp") so that the lexicographic order of the
 /// strings is the order of the model values; (0, 0) is the empty string (value-initialised element).
 template <>
 struct ElemIO<std::string, false> {
@@ -97,21 +99,23 @@ struct ElemIO<std::string, false> {
   static const int ledgerMode = 0;
   static T make(const Val &x) {
     if (x.key == 0 && x.pay == 0) return T();
-    char b[24];
-    snprintf(b, sizeof b, "%03d:%05d", x.key, x.pay);
+    char b[32];
+    snprintf(b, sizeof b, "%05d:%07d", x.key % 100000, x.pay % 10000000);  // 13 characters: still a short (in-object) string
     return T(b);
   }
   static Val val(const T &e) {
     if (e.empty()) return Val{0, 0};
-    if (e.size() != 9 || e[3] != ':') return Val{-1, -1};
-    for (size_t i = 0; i < 9; ++i) if (i != 3 && (e[i] < '0' || e[i] > '9')) return Val{-1, -1};
-    return Val{atoi(e.c_str()), atoi(e.c_str() + 4)};
+    if (e.size() != 13 || e[5] != ':') return Val{-1, -1};
+    for (size_t i = 0; i < 13; ++i) if (i != 5 && (e[i] < '0' || e[i] > '9')) return Val{-1, -1};
+    return Val{atoi(e.c_str()), atoi(e.c_str() + 6)};
   }
   static int state(const T &) { return ES_ALIVE; }
   template <class V> static T &emplace_back(V &v, const Val &x) { T t = make(x); return v.emplace_back(t.c_str()); }
   template <class V, class It> static typename V::iterator emplace(V &v, It pos, const Val &x) { T t = make(x); return v.emplace(pos, t.c_str(), t.size()); }
   template <class V, class It> static typename V::iterator emplace_member(V &v, It pos, const T &, int) { return v.end() + 0 * (pos - pos); }
   template <class V> static T &emplace_back_member(V &v, const T &, int) { return v.back(); }
+  template <class S> static auto set_emplace(S &s, const Val &x) -> decltype(s.emplace("")) { T t = make(x); return s.emplace(t.c_str()); }
+  template <class S, class It> static auto set_emplace_hint(S &s, It h, const Val &x) -> decltype(s.emplace_hint(h, "")) { T t = make(x); return s.emplace_hint(h, t.c_str(), t.size()); }
 };
 
 /// std::pair elements: the library computes the relocatability of a pair from its two members.
